@@ -15,7 +15,7 @@ PROP = {
     "rule": "history = connection lifetimes (40% all connections live throughout; 60% 2-4 consecutive generations of 1-2 connections, each generation closed - client close, server-side Disconnect awaited - before the next is opened against the same server, optional spanning connection, up to 6 connections; 40% of those cases under GOMAXPROCS(1)) x roles (which connections ever send an accepted auth request) x 2-6 rounds x 1-4 concurrent ops from {AuthGood, AuthBad "
             "(empty/near-miss/absent token), OtherHTTP near-miss (optionally with a GOOD token), TCPReq (framings block/hdr/ascii/data0, varint "
             "widths, payload 0-1500, dial failure), Datagram (complete / first fragment / both fragments, session ids 1-3)}, token table 1-3, "
-            "with/without TrafficLogger; any auth op may be held inside the fake authenticator (until the round's proxy ops were written / until another auth op's verdict was returned = generated completion order of concurrent attempts on one connection / across the close of its own connection, optionally until the next round's connections are open), all waits capped. The authenticator's verdict is dynamic: tokens 2..n may be revoked at a round boundary, an extra token is granted at a round boundary, and the authenticator may reject everything from a given connection's address; credential strings of earlier accepted ops are re-presented VERBATIM by other connections (accepted again / rejected for that connection / rejected after the revoke); twin shape: the same string with the same CC-RX in flight on two connections at once, accepted for one and refused for the other connection's address, either one parked in the authenticator while the other arrives. Non-trivial: an accepted and a never-accepted connection both issuing proxy "
+            "with/without TrafficLogger; any auth op may be held inside the fake authenticator (until the round's proxy ops were written / until another auth op's verdict was returned = generated completion order of concurrent attempts on one connection / across the close of its own connection, optionally until the next round's connections are open), all waits capped. The authenticator's verdict is dynamic: tokens 2..n may be revoked at a round boundary, an extra token is granted at a round boundary, and the authenticator may reject everything from a given connection's address; credential strings of earlier accepted ops are re-presented VERBATIM by other connections (accepted again / rejected for that connection / rejected after the revoke); twin shape: the same string with the same CC-RX in flight on two connections at once, accepted for one and refused for the other connection's address, either one parked in the authenticator while the other arrives. TestVerifC01_LongAuthHistory: one connection, 6-20 auth requests (0-7 rejected, the accepted one, then repeated accepted / repeated wrong / near-miss with garbage headers) with TCP requests and datagrams interleaved and at the end; non-trivial there: >= 5 non-accepted auth attempts on a connection that is or becomes authenticated. Non-trivial: an accepted and a never-accepted connection both issuing proxy "
             "ops, or a reject/repeat after the accept followed by a proxy op, or a proxy op before/concurrent with the accept, or a proxy op "
             "racing a held authenticator call on a never-accepted connection, or a connection opened after an accepted connection was closed that proxies / sends rejected credentials without (or before) its own accept. Distinct = per-connection (round, op kind, framing/fragment mode, "
             "held) sequence.",
@@ -25,6 +25,8 @@ PROP = {
                     "streams/datagrams sent before or concurrently with the accept may legitimately be served after it (only the log order is asserted for them)"],
     "tests": [
         {"name": "TestVerifC01_AuthGate", "unit": U, "quick": 150, "thorough": 2500, "shards": 1, "shards_thorough": 16,
+         "timeout_quick": 600, "timeout_thorough": 3600, "shrinktime": "40s"},
+        {"name": "TestVerifC01_LongAuthHistory", "unit": U, "quick": 60, "thorough": 400, "shards": 1, "shards_thorough": 8,
          "timeout_quick": 600, "timeout_thorough": 3600, "shrinktime": "40s"},
     ],
 }
